@@ -688,7 +688,7 @@ def run(ctx):
             check_cases(ctx, eng, cases, cov, dist, distinct, rng)
         else:
             cases = [(c, "planned") for c in planned_cases(eng)]
-            n = 2200 if ctx.quick() else 20000
+            n = 1800 if ctx.quick() else 20000
             cases += [(gen_case(rng, eng), "random") for _ in range(n)]
             if not ctx.quick():
                 cases += [(c, "matrix") for c in perm_matrix(eng)]
